@@ -4,7 +4,8 @@ from pv import obs_tables_small as S
 
 
 KEYS = ['parso.pgen2.generator.DFAState.__eq__', 'parso.pgen2.generator.DFAState.unifystate',
-        'parso.pgen2.generator.DFAState.add_arc']
+        'parso.pgen2.generator.DFAState.add_arc', 'parso.pgen2.generator.ReservedString.__init__',
+        'parso.pgen2.generator._make_transition#string']
 
 
 def _tables():
